@@ -365,12 +365,13 @@ def larger_expression_trees(chunk, replay=None):
             if k < 0.55:
                 return ("lit", rng.choice(VARS), rng.random() < 0.6)
             if k < 0.8:
-                return ("term", rng.choice(VARS), rng.random() < 0.5, rng.choice([1, 2, 3, 5, 7]))
-            return ("int", rng.choice([-3, -1, 0, 1, 2, 4]))
+                return ("term", rng.choice(VARS), rng.random() < 0.5, rng.choice([1, 2, 3, 5, 7, 2 ** 31 + 1, 2 ** 53 + 1]))
+            return ("int", rng.choice([-3, -1, 0, 1, 2, 4, 2 ** 52 + 3]))
         if r < 0.35:
             return ("neg", gen(0))          # unary minus is defined for literals, terms and integers only
         if r < 0.5:
-            return ("mul", rng.choice([-3, -2, -1, 0, 1, 2, 3, 5]), gen(depth - 1), rng.random() < 0.5)
+            # Python integers are exact at any size (after the open seed r8-C16-2: products rounded through a float above 2**52)
+            return ("mul", rng.choice([-3, -2, -1, 0, 1, 2, 3, 5, 2 ** 53 + 1, -(2 ** 64) - 7]), gen(depth - 1), rng.random() < 0.5)
         return (rng.choice(["add", "add", "sub"]), gen(depth - 1), gen(depth - 1))
 
     def expr_val(e, sg):
